@@ -7,6 +7,7 @@ import os
 
 from sa import effects
 from sa import model
+from sa import norm
 from sa import origins
 from sa import universe as unimod
 from sa.model import AnalysisError
@@ -152,6 +153,46 @@ def r09a_scope(uni):
     return out
 
 
+MUTABLE_NAMES = ('list', 'set', 'dict', 'bytearray', 'deque',
+                 'MutableSequence', 'MutableMapping', 'MutableSet',
+                 'MutableSequenceType', 'MutableMappingType',
+                 'MutableSetType', 'SequenceType', 'MappingType', 'SetType',
+                 'Sequence', 'Mapping', 'Set', 'Iterable', 'IterableType',
+                 'object', 'QueueType')
+IMMUTABLE_NAMES = ('tuple', 'str', 'int', 'float', 'bool', 'frozenset',
+                   'bytes', 'FrozenDict', 'datetime', 'timedelta',
+                   'DATETIME_TYPE', 'TIMESPAN_TYPE', 'NoneType')
+
+
+def _may_be_mutable_here(uni, fi, w):
+    """May the name an augmented assignment targets hold a mutable
+    container at that point?  Decided by an isinstance test that holds
+    there, else by the declared type of the parameter; unknown -> no."""
+    name = w.target.id
+    for e, pol in norm.literals(w.node, fi.node):
+        if isinstance(e, ast.Call) and isinstance(e.func, ast.Name) and \
+                e.func.id == 'isinstance' and len(e.args) == 2 and \
+                isinstance(e.args[0], ast.Name) and e.args[0].id == name:
+            ts = e.args[1].elts if isinstance(
+                e.args[1], ast.Tuple) else [e.args[1]]
+            names = [model.norm(t).rsplit('.', 1)[-1] for t in ts]
+            if pol and any(n in MUTABLE_NAMES for n in names):
+                return True
+            if pol and all(n in IMMUTABLE_NAMES for n in names):
+                return False
+    for ov in uni.payload_ov.get(fi.key, ()):
+        for p in ov.params:
+            if p.name != name or p.type.hidden:
+                continue
+            pts = p.type.python_types
+            if not pts:
+                return not p.type.smart      # undeclared: anything
+            short = [t.rsplit('.', 1)[-1] for t in pts]
+            if any(n in MUTABLE_NAMES for n in short):
+                return True
+    return False
+
+
 def check_r09a(repo, rep, uni, eff, scope, prefix=''):
     nsites = 0
     for fi, role in scope:
@@ -160,6 +201,15 @@ def check_r09a(repo, rep, uni, eff, scope, prefix=''):
         hits = []
         for w in effects.writes_in(fi.node):
             if w.kind == 'aug-name':
+                # `p += x` rebinds for numbers, strings and tuples but
+                # extends a list / set / dict / deque in place
+                v = env.ev(w.target)
+                bad = data_tags(v.tags)
+                if bad and _may_be_mutable_here(uni, fi, w):
+                    nsites += 1
+                    hits.append((w.node, bad, 'augmented assignment `%s`, '
+                                 'which extends a list/set/dict operand in '
+                                 'place' % model.norm(w.node), w.target))
                 continue
             v = env.ev(w.target)
             nsites += 1
